@@ -140,6 +140,8 @@ def run(pid, tier, seed, assumptions, rule):
         crashed = [t for t in traces if "tb" in t]
         if crashed:
             raise core.MachineryError("driver crashed: " + crashed[0]["tb"])
+        raised = [t for t in traces if t.get("codeexc")]
+        traces = [t for t in traces if not t.get("codeexc")]
         broken = [t for t in traces if t.get("exc")]
         if broken:
             raise core.MachineryError(f"trace could not be recorded ({broken[0]['exc']}) cfg={broken[0]['cfg']}")
@@ -151,6 +153,9 @@ def run(pid, tier, seed, assumptions, rule):
         for r in rej:
             t = live[r["tid"]]
             viol.append(dict(clause=r["clause"], sig=sig_of(t["cfg"], r["clause"]), detail=f"event {r['ev']}",
+                             driver="harness.drv_rar:run_case", cfg=t["cfg"], record=t))
+        for t in raised:
+            viol.append(dict(clause="RefinementRaised", sig=dict(sig_of(t["cfg"], ""), exc=t["codeexc"].split(":")[0]), detail=t["codeexc"],
                              driver="harness.drv_rar:run_case", cfg=t["cfg"], record=t))
         rc, n_new, n_known = core.report(pid, viol)
         import copy
